@@ -15,6 +15,7 @@ import base64
 import copy
 import json
 import os
+import re
 
 import engine as E
 from engine import coq_str, coq_list, coq_bool, coq_z, coq_nat, coq_opt
@@ -44,12 +45,26 @@ RULE = ("configurations = endpoint (token, introspection, token_revocation, push
         "process_request, judged: whose token was revoked / whose code was redeemed / for whom a request was "
         "stored) and client_credentials at an OAuth2 token endpoint (judged: owner of the issued token); plus a deterministic block of "
         "long-lived assertions (exp +1 h / +1 day) replayed after clock advances of 0/599/600/601/3599 s/12 h with 0 or 3 "
-        "fresh assertions in between, at the same and at another endpoint; a case is non-trivial "
-        "when at least one method is usable for the request")
+        "fresh assertions in between, at the same and at another endpoint; the kid header of every JWT kind (absent, "
+        "the thumbprint of the signing key, the kid of another key of the client / of another client / of the provider, "
+        "of no key) x key jars that hold two symmetric keys for a client in both orders (the client database names one of "
+        "them as the secret); plus a deterministic block of CREDENTIAL HISTORIES on providers of their own: a client "
+        "registers and registers anew under its id (Registration.process_request(req, new_id=False); also with a "
+        "provider-chosen id) with another jwks / no jwks / a jwks_uri, refused registrations in between, deletion and "
+        "re-registration of the id, secret expiry and renewal, a jwks_uri document that is replaced, a deployer filing "
+        "keys and storing another secret by hand - after EVERY operation the model's cred_step is compared with the real "
+        "client database and key jar, and the credential matrix of ALL generations of the client's material (Basic, POST, "
+        "client_secret_jwt, private_key_jwt RS/ES, request object; kid of the key / no kid / kid of the key in force) goes "
+        "through parse_request at all five endpoints, judged: accepted as X only with the material in force; a case is "
+        "non-trivial when at least one method is usable for the request")
 ASSUMPTIONS = [
     "cryptojwt verifies JWS signatures ideally: a signature verifies only under the key that made it (symbolic model)",
     "cryptojwt JWT.unpack / JsonWebToken.verify use a 15 s clock skew: an assertion counts as unexpired while now < exp + 15",
-    "key-jar selection is modelled for JWS headers without kid (0/1/many rule of KeyJar._add_key)",
+    "key-jar selection is modelled for JWS headers without kid (0/1/many rule of KeyJar._add_key) and with a kid "
+    "(KeyIssuer.get / JWx.pick_keys by kid); a key's kid is a function of its material (thumbprints); an empty kid "
+    "header (= none) is never sent; jku / x5c headers are absent",
+    "the key jar the model evaluates on is read from the real KeyJar before every history (bundle order, inactive keys "
+    "of a refreshed jwks_uri bundle left out as KeyBundle.get does); fetching a jwks_uri document is an environment step",
     "endpoint.get_client_id_from_token (bearer methods) is an environment function cx_tok; that a token resolves only "
     "to the client it was minted for is property C04",
     "also_known_as, get_client_info and automatic_registration hooks of verify_client are absent (defaults)",
@@ -90,15 +105,13 @@ def load_keys(ctx):
     from cryptojwt.jwk.jwk import key_from_jwk_dict
     path = os.path.join(E.BUILD, "C01", "keys.json")
     os.makedirs(os.path.dirname(path), exist_ok=True)
-    if os.path.exists(path):
-        raw = json.load(open(path))
-    else:
-        raw = {}
-        for n in (1, 2, 3):
-            for kind, mk in (("rsa", lambda: new_rsa_key()), ("ec", lambda: new_ec_key("P-256"))):
-                d = mk().serialize(private=True)
-                d.pop("kid", None)
-                raw["%s%d" % (kind, n)] = d
+    raw = json.load(open(path)) if os.path.exists(path) else {}
+    missing = [(kind, n) for n in (1, 2, 3, 4, 5) for kind in ("rsa", "ec") if "%s%d" % (kind, n) not in raw]
+    if missing:
+        for kind, n in missing:
+            d = (new_rsa_key() if kind == "rsa" else new_ec_key("P-256")).serialize(private=True)
+            d.pop("kid", None)
+            raw["%s%d" % (kind, n)] = d
         tmp = path + ".tmp%d" % os.getpid()
         json.dump(raw, open(tmp, "w"))
         os.replace(tmp, path)
@@ -109,6 +122,68 @@ def pub_jwk(key):
     d = key.serialize(private=False)
     d.pop("kid", None)
     return d
+
+
+def key_fp(k):
+    """the public material of a key (what identifies it, whatever kid it carries)"""
+    d = k.serialize(private=False)
+    return json.dumps({x: d[x] for x in ("kty", "n", "e", "crv", "x", "y", "k") if x in d}, sort_keys=True)
+
+
+def kid_for(world, key):
+    """the kid client libraries put into the JWS header and KeyBundle gives a key that comes without one: the
+    thumbprint of the key material.  key = ("sym", secret) | ("oct", secret) | ("rsa", n) | ("ec", n)"""
+    from cryptojwt.jwk.hmac import SYMKey
+    from cryptojwt.jwk.jwk import key_from_jwk_dict
+    cache = world.__dict__.setdefault("_kids", {})
+    if key not in cache:
+        kind, kv = key
+        if kind in ("sym", "oct"):
+            k = SYMKey(key=sym_bytes(world, kv))
+        else:
+            k = key_from_jwk_dict(pub_jwk(world.keys["%s%d" % (kind, kv)]))
+        k.add_kid()
+        cache[key] = k.kid
+    return cache[key]
+
+
+def observe_keyjar(world):
+    """what the provider's key jar holds NOW for signature verification, in symbolic form (read from the real
+    KeyJar, not from the generator's book-keeping): issuer id -> [(kind, value)] in bundle order, the provider's
+    own keys, and the kid every key carries.  Inactive keys (a jwks_uri document that dropped them) are not
+    used for verification (KeyBundle.get(only_active=True)) and are left out."""
+    kj = world.server.keyjar
+    names = world.__dict__.get("_fps")
+    if names is None:
+        names = world._fps = {key_fp(k): n for n, k in world.keys.items()}
+    iss, own, kids = {}, [], {}
+    for owner in kj.owners():
+        if owner == ISS:
+            continue
+        lst, unknown = [], 0
+        for kb in kj[owner]:
+            for k in kb.keys():
+                if k.inactive_since or (k.use and k.use != "sig"):
+                    continue
+                if k.kty == "oct":
+                    sym = ("oct", k.key.decode("utf-8"))
+                else:
+                    kind = "rsa" if k.kty == "RSA" else "ec"
+                    n = names.get(key_fp(k))
+                    if n is not None:
+                        sym = (kind, int(n[len(kind):]))
+                    else:
+                        # the provider's own keys are number 0 (further ones 100, 101, ...); an unknown key 900+
+                        same = [x for x in lst if x[0] == kind]
+                        sym = (kind, (0 if not same else 99 + len(same)) if owner == "" else 900 + unknown)
+                        unknown += owner != ""
+                lst.append(sym)
+                kids[sym] = k.kid or ""
+        if owner == "":
+            own = lst
+        else:
+            iss[owner] = lst
+    return iss, own, kids
 
 
 # ------------------------------------------------------------------ the world: a real provider + symbolic mirror
@@ -140,6 +215,22 @@ class World:
         elif variant == "own_oct":
             kj.add_symmetric("", OWN_OCT)
             self.kj_own.append(("oct", OWN_OCT))
+        elif variant == "rot_jar":
+            # a second symmetric key filed LATER under client_4 (a deployer who rotates a secret files the new one
+            # with keyjar.add_symmetric: the old one stays): which of the two is the secret is the client database's say
+            kj.add_symmetric("client_4", ROTATED)
+            self.kj_iss["client_4"].append(("oct", ROTATED))
+        elif variant == "rot_jar_new_first":
+            # the same two keys in the other order
+            del kj["client_4"]
+            kj.add_symmetric("client_4", ROTATED)
+            kj.add_symmetric("client_4", self.secret["client_4"])
+            kj.import_jwks({"keys": [pub_jwk(keys["rsa2"]), pub_jwk(keys["ec2"])]}, "client_4")
+            self.kj_iss["client_4"] = [("oct", ROTATED)] + self.kj_iss["client_4"]
+        obs = observe_keyjar(self)
+        if obs[0] != self.kj_iss or obs[1] != self.kj_own:
+            ctx.broken.append("the provider's key jar (%r, own %r) is not what the harness filed (%r, own %r)" % (
+                obs[0], obs[1], self.kj_iss, self.kj_own))
         self.base_cdb = {cid: copy.deepcopy(c.cdb[cid]) for cid in CLIENTS}
         # bearer tokens minted for client_1 and client_2
         sm = c.session_manager
@@ -203,6 +294,11 @@ class World:
         ep.verify_request = verify_request
         ep.do_post_parse_request = do_post_parse_request
 
+    def own_kid(self, kind):
+        """the kid of the provider's own signing key of that kind"""
+        _iss, own, kids = observe_keyjar(self)
+        return next((kids[k] for k in own if k[0] == kind), "none")
+
     def mint_access(self, cid):
         """a fresh access token owned by cid (not one of the aliases the model knows)"""
         sm = self.c.session_manager
@@ -231,7 +327,7 @@ class World:
             if "expires" in o and "client_secret" in rec:
                 rec["client_secret_expires_at"] = o["expires"]
             if o.get("secret") is not None:
-                rec["client_secret"] = o["secret"]       # rotated in the client database; the key jar keeps the old key
+                rec["client_secret"] = o["secret"]       # rotated in the client database; the key jar is as the variant filed it
             if o.get("methods") is not None:
                 rec["client_authn_method"] = list(o["methods"])
             for epn, lst in o.get("ep_methods", {}).items():
@@ -265,6 +361,9 @@ class World:
 
 
 # ------------------------------------------------------------------ symbolic request -> real request
+_KEYED = {}
+
+
 def sign_jwt(world, spec):
     from cryptojwt.jws.jws import JWS
     from cryptojwt.jwk.hmac import SYMKey
@@ -281,8 +380,15 @@ def sign_jwt(world, spec):
     kind, kv = spec["key"]
     if spec["alg"] == "none":
         return JWS(json.dumps(claims), alg="none").sign_compact([])
+    kid = spec.get("kid") or ""          # the kid header is the signing key object's kid; none without
     if kind == "sym":
-        key = SYMKey(key=sym_bytes(world, kv))
+        key = SYMKey(key=sym_bytes(world, kv), kid=kid)
+    elif kid:
+        from cryptojwt.jwk.jwk import key_from_jwk_dict
+        cache = _KEYED          # (the key material is the same in every world)
+        if (kind, kv, kid) not in cache:
+            cache[(kind, kv, kid)] = key_from_jwk_dict(dict(world.keys["%s%d" % (kind, kv)].serialize(private=True), kid=kid))
+        key = cache[(kind, kv, kid)]
     else:
         key = world.keys["%s%d" % (kind, kv)]
     return JWS(json.dumps(claims), alg=spec["alg"]).sign_compact([key])
@@ -377,9 +483,9 @@ def cq_token(spec):
     key = "(KSym %s)" % coq_str(kv) if kind == "sym" else "(%s %s)" % ("KRsa" if kind == "rsa" else "KEc", coq_nat(kv))
     aud = "(@None (list pystr))" if spec.get("aud") is None else "(Some %s)" % coq_list([coq_str(a) for a in spec["aud"]], "pystr")
     sub, azp, cid = inner_claims(spec)
-    return ("(Some (Jwt {| j_alg := %s; j_key := %s; j_iss := %s; j_sub := %s; j_azp := %s; j_cid := %s; j_aud := %s; "
+    return ("(Some (Jwt {| j_alg := %s; j_key := %s; j_kid := %s; j_iss := %s; j_sub := %s; j_azp := %s; j_cid := %s; j_aud := %s; "
             "j_exp := %s; j_nbf := %s; j_iat := %s; j_jti := %s |}))" % (
-                alg, key, cq_optstr(spec.get("iss")), cq_optstr(sub), cq_optstr(azp), cq_optstr(cid), aud,
+                alg, key, cq_optstr(spec.get("kid") or None), cq_optstr(spec.get("iss")), cq_optstr(sub), cq_optstr(azp), cq_optstr(cid), aud,
                 cq_optz(spec.get("exp")), cq_optz(spec.get("nbf")), cq_optz(spec.get("iat")), cq_optstr(spec.get("jti"))))
 
 
@@ -421,6 +527,15 @@ def cq_client(rec):
     return "{| c_secret := %s; c_expires := %s; c_methods := %s; c_ep_methods := %s |}" % (
         cq_optstr(rec.get("client_secret")), cq_optz(rec.get("client_secret_expires_at")), meths,
         coq_list(eps, "(pystr * list meth)"))
+
+
+def cq_keyjar(world, obs=None):
+    """(kj_iss, kj_own, kj_kid) of the Coq keyjar record: what the REAL key jar holds now"""
+    iss, own, kids = obs or observe_keyjar(world)
+    return (coq_list(["(%s, %s)" % (coq_str(i), coq_list([cq_vkey(k) for k in ks], "vkey")) for i, ks in iss.items()],
+                     "(pystr * list vkey)"),
+            coq_list([cq_vkey(k) for k in own], "vkey"),
+            coq_list(["(%s, %s)" % (cq_vkey(k), coq_str(v)) for k, v in kids.items()], "(vkey * pystr)"))
 
 
 def cq_tokres(r):
@@ -521,14 +636,30 @@ def run_request(ctx, world, cfg, rq, now, hist, extra_body=None, extra_rec=None)
     return term, rec, obs_auth == "Unmodelled" or obs_parse == "Unmodelled"
 
 
+_PS_LIT = re.compile(r'\(PS "[^"]*"\)')
+
+
+def share_literals(term):
+    """the same Gallina term with every string literal that occurs more than once bound ONCE by a local `let`
+    (elaborating `PS "..."` dominates coqc's time on generated cases: client ids, secrets, kids and endpoint URLs
+    recur in every step of a history)"""
+    counts = {}
+    for lit in _PS_LIT.findall(term):
+        counts[lit] = counts.get(lit, 0) + 1
+    names = {lit: "lit_%d_" % i for i, lit in enumerate(k for k, n in counts.items() if n >= 2 and len(k) > 10)}
+    if not names:
+        return term
+    body = _PS_LIT.sub(lambda m: names.get(m.group(0), m.group(0)), term)
+    return "(" + "".join("let %s := %s in " % (v, k) for k, v in names.items()) + body + ")"
+
+
 def history_term(ctx, world, cfg, jdb0, steps):
     """the Coq hcase: static configuration of this history + its steps."""
     c = world.c
     epn = cfg["ep"]
     ep = world.eps[epn]
     tab = world.tok_table(ep)
-    kjs = coq_list(["(%s, %s)" % (coq_str(i), coq_list([cq_vkey(k) for k in ks], "vkey")) for i, ks in world.kj_iss.items()],
-                   "(pystr * list vkey)")
+    kjs, kj_own, kj_kid = cq_keyjar(world)
     cdb_t = coq_list(["(%s, %s)" % (coq_str(cid), cq_client(r)) for cid, r in c.cdb.items()], "(pystr * client)")
     cfg_m = cfg["methods"]
     if cfg_m == "default":
@@ -540,9 +671,9 @@ def history_term(ctx, world, cfg, jdb0, steps):
     ep_t = "{| ep_name := %s; ep_methods := []; ep_targets := %s; ep_lookup := %s; ep_userinfo := %s |}" % (
         coq_str(ep.endpoint_name), coq_list([coq_str(t) for t in targets], "pystr"),
         coq_bool(hasattr(ep, "get_client_id_from_token")), coq_bool(epn == "userinfo"))
-    return ("{| hc_cdb := %s; hc_kj := {| kj_iss := %s; kj_own := %s |}; hc_tok := %s; hc_ep_cfg := %s; hc_ep := %s; "
+    return share_literals("{| hc_cdb := %s; hc_kj := {| kj_iss := %s; kj_own := %s; kj_kid := %s |}; hc_tok := %s; hc_ep_cfg := %s; hc_ep := %s; "
             "hc_jdb0 := %s; hc_steps := %s |}" % (
-                cdb_t, kjs, coq_list([cq_vkey(k) for k in world.kj_own], "vkey"),
+                cdb_t, kjs, kj_own, kj_kid,
                 coq_list(["(%s, %s)" % (coq_str(al), cq_tokres(r)) for al, r in tab.items()], "(pystr * tok_res)"),
                 ep_cfg, ep_t, coq_list([coq_str(k) for k in jdb0], "pystr"), coq_list(steps, "hstep")))
 
@@ -554,6 +685,19 @@ def secret_current(world, cid, now):
         return False
     eta = rec.get("client_secret_expires_at", 0)
     return eta == 0 or eta >= now
+
+
+def superseded_material(world, cid, key):
+    """was this key material (("oct", secret) | ("rsa", n) | ("ec", n)) once in force for cid and is not any more?
+    (an earlier generation of a credential history; a symmetric key still filed under cid that is not the secret)"""
+    gens = getattr(world, "gens", None)
+    if gens is not None and getattr(world, "x", None) == cid:
+        cur = world.current()
+        now_in_force = ([("oct", cur["secret"])] + list(cur["keys"])) if cur else []
+        return key not in now_in_force and any(key == ("oct", g["secret"]) or key in g["keys"] for g in gens)
+    if key[0] == "oct":
+        return key in world.kj_iss.get(cid, []) and world.c.cdb.get(cid, {}).get("client_secret") != key[1]
+    return False
 
 
 def jwt_valid_for(world, cfg, spec, cid, now, hist, need_aud=True):
@@ -569,11 +713,11 @@ def jwt_valid_for(world, cfg, spec, cid, now, hist, need_aud=True):
             # could have produced it; counted as an observation, stated as a disjunct of C01_sound
             hist["own_oct"] = hist.get("own_oct", 0) + 1
         elif not (kind == "sym" and world.c.cdb.get(cid, {}).get("client_secret") == kv):
-            return False, "hs-key"
+            return False, "superseded-secret" if kind == "sym" and superseded_material(world, cid, ("oct", kv)) else "hs-key"
     elif spec["alg"] in ("RS256", "ES256"):
         reg = [k for k in world.kj_iss.get(cid, []) if k[0] == kind]
         if (kind, kv) not in reg:
-            return False, "asym-key"
+            return False, "superseded-key" if superseded_material(world, cid, (kind, kv)) else "asym-key"
     else:
         return False, "alg"
     if need_aud:
@@ -623,6 +767,19 @@ def proved_identities(world, cfg, rq, now):
     return out
 
 
+def superseded_request_object(world, rq):
+    """the client X whose SUPERSEDED secret MACed the request object of this request - a symmetric key that is still
+    filed under X in the real key jar but is not the secret X's record holds now - else None"""
+    spec = rq.get("request")
+    if not (isinstance(spec, dict) and spec["alg"] == "HS256" and spec["key"][0] == "sym"):
+        return None
+    x = spec.get("iss")
+    crec = world.c.cdb.get(x)
+    if crec is None or crec.get("client_secret") == spec["key"][1]:
+        return None
+    return x if ("oct", spec["key"][1]) in observe_keyjar(world)[0].get(x, []) else None
+
+
 def oracle_identity(ctx, world, cfg, rq, now, rec, seen, epn):
     """(I) a request is processed under the identity its credential proves: wherever the parsed request is
     handed on as authenticated, the client_id IT CARRIES (what the token helpers, revocation, introspection, PAR
@@ -639,6 +796,14 @@ def oracle_identity(ctx, world, cfg, rq, now, rec, seen, epn):
             places.append(("the request parse_request hands to do_post_parse_request", seen["post_req_client"], seen["generic"][1]))
         if "final" in seen:
             places.append(("the request parse_request returns", seen["final"][0], seen["final"][1]))
+    # (I0) a request object MACed with a superseded secret of X that the key jar still holds, handed on as X: reported
+    # under its own key (method request_param has no counterpart of client_secret_jwt's key == client_secret test)
+    stale = superseded_request_object(world, rq)
+    if stale is not None and any(flagged and ident == stale for _w, ident, flagged in places) and stale not in proved:
+        ctx.violation("request_param-superseded-secret",
+                      "%s: a request object MACed with a SUPERSEDED secret of %r (still filed in the key jar; the client "
+                      "database holds another secret now) is handed on as client %r, authenticated=True" % (epn, stale, stale), rec)
+        return False
     # (I') the claims INSIDE a signed assertion / request object establish nothing: the identity is the signer's
     # (generator ground truth: whose key material made the signature), never the client that sub / azp / the
     # client_id claim name
@@ -653,6 +818,8 @@ def oracle_identity(ctx, world, cfg, rq, now, rec, seen, epn):
         if odd or not (signers and spec.get("iss") in signers):
             ctx.count("inner-claims:%s:%s" % (field, "inconsistent" if odd else "iss-not-the-signer"))
         for where, ident, flagged in places:
+            if ident == spec.get("iss") and not odd:
+                continue      # consistent claims, processed as their iss: whether the KEY proves iss is judged below
             if flagged and ident not in signers and ident not in proved and ident in [v for v in named.values() if v is not None]:
                 ctx.violation("processed-as-inner-claim:" + "+".join(sorted(k for k, v in named.items() if v == ident)),
                               "%s: %s carries client_id=%r with authenticated=True; the %s was made with the key material of "
@@ -664,11 +831,18 @@ def oracle_identity(ctx, world, cfg, rq, now, rec, seen, epn):
                 return False
     for where, ident, flagged in places:
         if flagged and ident not in proved:
+            why = ""
+            for field in ("assertion", "request"):
+                spec = rq.get(field)
+                if isinstance(spec, dict) and spec.get("iss") == ident:
+                    why += "; its %s names %r as iss but is no credential of that client: %s" % (
+                        field, ident, jwt_valid_for(world, cfg, spec, ident, now, {"accepted_jti": set()}, need_aud=field == "assertion")[1]
+                        or "the client's secret has expired")
             ctx.violation("identity-not-proved",
                           "%s: %s carries client_id=%r with authenticated=True, but the only credentials in the request "
                           "are those of %r (body client_id %r, header %r): the request is processed as a client whose "
-                          "credential it does not hold" % (epn, where, ident, sorted(proved.items()), rq.get("client_id"),
-                                                           (rq.get("hdr") or (None,))[0]), rec)
+                          "credential it does not hold%s" % (epn, where, ident, sorted(proved.items()), rq.get("client_id"),
+                                                             (rq.get("hdr") or (None,))[0], why), rec)
             return False
     ctx.count("identity:" + ("processed-as-proved" if any(f for _, _, f in places) else "not-authenticated"))
     if any(f for _, _, f in places) and rq.get("client_id") is not None and rq["client_id"] not in proved:
@@ -677,6 +851,14 @@ def oracle_identity(ctx, world, cfg, rq, now, rec, seen, epn):
 
 
 def oracle(ctx, world, cfg, rq, now, hist, rec, auth_ok, seen, outcome, fp_before, fp_after, jdb_before, jdb_after):
+    """all verdicts on one request; the generic identity verdict is listed after the specific ones it comes with
+    (the first verdict of a run is the one the replay file shows)"""
+    n0 = len(ctx.violations)
+    _oracle(ctx, world, cfg, rq, now, hist, rec, auth_ok, seen, outcome, fp_before, fp_after, jdb_before, jdb_after)
+    ctx.violations[n0:] = sorted(ctx.violations[n0:], key=lambda v: v["sig"] == "identity-not-proved")
+
+
+def _oracle(ctx, world, cfg, rq, now, hist, rec, auth_ok, seen, outcome, fp_before, fp_after, jdb_before, jdb_after):
     epn = cfg["ep"]
     ep = world.eps[epn]
     refused = auth_ok is None
@@ -716,7 +898,9 @@ def oracle(ctx, world, cfg, rq, now, hist, rec, auth_ok, seen, outcome, fp_befor
         return
     if treated != cid:
         ctx.violation("client-mixup", "%s: authenticated %r but request handed on for %r" % (epn, cid, treated), rec)
-    oracle_identity(ctx, world, cfg, rq, now, rec, seen, epn)
+    if not oracle_identity(ctx, world, cfg, rq, now, rec, seen, epn) and meth == "request_param" \
+            and superseded_request_object(world, rq) == cid:
+        return        # reported under request_param-superseded-secret
     ctx.count("verdict:authenticated")
     ctx.count("accepted-by:" + meth)
     ep_allowed = METHS if configured is None else (["none"] if configured == [] else configured)
@@ -817,6 +1001,10 @@ def genuine_requests(world, cfg, now, tag):
     out.append(("genuine:private_rs", {"assertion": good_jwt(world, cfg, "client_2", "RS256", now, "g-rs-" + tag)}))
     out.append(("genuine:private_es", {"assertion": good_jwt(world, cfg, "client_2", "ES256", now, "g-es-" + tag)}))
     out.append(("genuine:private_rs4", {"assertion": good_jwt(world, cfg, "client_4", "RS256", now, "g-rs4-" + tag)}))
+    out.append(("genuine:secret_jwt-kid", {"assertion": good_jwt(world, cfg, "client_1", "HS256", now, "g-hsk-" + tag,
+                                                                  kid=kid_for(world, ("sym", s["client_1"])))}))
+    out.append(("genuine:private_es-kid", {"assertion": good_jwt(world, cfg, "client_2", "ES256", now, "g-esk-" + tag,
+                                                                  kid=kid_for(world, ("ec", 1)))}))
     out.append(("genuine:bearer_header", {"hdr": ("bearer", "T1")}))
     out.append(("genuine:bearer_body", {"access_token": "T2"}))
     out.append(("genuine:request_param", {"request": good_jwt(world, cfg, "client_2", "RS256", now, "g-rp-" + tag)}))
@@ -906,6 +1094,45 @@ def fault_matrix(world, cfg, now, tag):
     add("post-client4-jar-secret", {"client_id": "client_4", "client_secret": s["client_4"]})
     add("hs-client4-jar-key", {"assertion": J("client_4", "HS256", "hs4j", key=("sym", s["client_4"]))})
     add("hs-client4-current-secret", {"assertion": J("client_4", "HS256", "hs4c", key=("sym", cur4))})
+    # the kid header (chosen by the sender): the thumbprint of the signing key (what client libraries send), the kid
+    # of another key of the same client, of another client's key, of no key at all
+    K = lambda key: kid_for(world, key)
+    s4 = ("sym", s["client_4"])
+    c4 = ("sym", cur4)
+    add("kid-hs-own", {"assertion": J("client_1", "HS256", "khs1", kid=K(("sym", s["client_1"])))})
+    add("kid-hs2-own", {"assertion": J("client_2", "HS256", "khs2", kid=K(("sym", s["client_2"])))})
+    add("kid-hs-unknown", {"assertion": J("client_1", "HS256", "khsu", kid="no-such-kid")})
+    add("kid-hs-of-other-client", {"assertion": J("client_1", "HS256", "khso", kid=K(("sym", s["client_2"])))})
+    add("kid-hs-other-secret-own-kid", {"assertion": J("client_1", "HS256", "khsx", key=("sym", s["client_2"]), kid=K(("sym", s["client_2"])))})
+    add("kid-hs-other-secret-victim-kid", {"assertion": J("client_1", "HS256", "khsv", key=("sym", s["client_2"]), kid=K(("sym", s["client_1"])))})
+    add("kid-hs-second-oct-own", {"assertion": J("client_2", "HS256", "k2o", key=("sym", SECOND_OCT), kid=K(("sym", SECOND_OCT)))})
+    add("kid-hs-second-oct-kid-of-secret", {"assertion": J("client_2", "HS256", "k2s", key=("sym", SECOND_OCT), kid=K(("sym", s["client_2"])))})
+    add("kid-hs-secret-kid-of-second-oct", {"assertion": J("client_2", "HS256", "ks2", kid=K(("sym", SECOND_OCT)))})
+    add("kid-hs-own-oct", {"assertion": J("client_1", "HS256", "koo", key=("sym", OWN_OCT), kid=K(("sym", OWN_OCT)))})
+    add("kid-hs-public-key-bytes", {"assertion": J("client_2", "HS256", "kpk", key=("sym", "PEM:rsa1"), kid=K(("rsa", 1)))})
+    add("kid-hs4-jar-key", {"assertion": J("client_4", "HS256", "k4j", key=s4, kid=K(s4))})
+    add("kid-hs4-current-secret", {"assertion": J("client_4", "HS256", "k4c", key=c4, kid=K(c4))})
+    add("kid-hs4-jar-key-kid-of-current", {"assertion": J("client_4", "HS256", "k4jc", key=s4, kid=K(c4))})
+    add("kid-hs4-current-kid-of-jar-key", {"assertion": J("client_4", "HS256", "k4cj", key=c4, kid=K(s4))})
+    add("kid-hs4-rotated", {"assertion": J("client_4", "HS256", "k4r", key=("sym", ROTATED), kid=K(("sym", ROTATED)))})
+    add("kid-hs4-rotated-kid-of-jar-key", {"assertion": J("client_4", "HS256", "k4rj", key=("sym", ROTATED), kid=K(s4))})
+    add("kid-hs4-jar-key-kid-of-rotated", {"assertion": J("client_4", "HS256", "k4jr", key=s4, kid=K(("sym", ROTATED)))})
+    add("post-client4-rotated", {"client_id": "client_4", "client_secret": ROTATED})
+    add("basic-client4-rotated", {"hdr": ("basic", "client_4:%s" % ROTATED)})
+    add("basic-client4-jar-secret", {"hdr": ("basic", "client_4:%s" % s["client_4"])})
+    add("kid-rs-own", {"assertion": J("client_2", "RS256", "krs", kid=K(("rsa", 1)))})
+    add("kid-es-own", {"assertion": J("client_4", "ES256", "kes", kid=K(("ec", 2)))})
+    add("kid-rs-unknown", {"assertion": J("client_2", "RS256", "kru", kid="no-such-kid")})
+    add("kid-rs-of-other-clients-key", {"assertion": J("client_2", "RS256", "kro", kid=K(("rsa", 2)))})
+    add("kid-rs-other-clients-key-own-kid", {"assertion": J("client_2", "RS256", "krx", key=("rsa", 2), kid=K(("rsa", 2)))})
+    add("kid-rs-other-clients-key-victim-kid", {"assertion": J("client_2", "RS256", "krv", key=("rsa", 2), kid=K(("rsa", 1)))})
+    add("kid-rs-unregistered-key", {"assertion": J("client_2", "RS256", "krn", key=("rsa", 3), kid=K(("rsa", 3)))})
+    add("kid-rs-kid-of-ec-key", {"assertion": J("client_2", "RS256", "kre", kid=K(("ec", 1)))})
+    add("kid-rs-provider-key-kid", {"assertion": J("client_2", "RS256", "krp", kid=world.own_kid("rsa"))})
+    add("kid-rs-iss-absent", {"assertion": J("client_2", "RS256", "kri", iss=None, kid=K(("rsa", 1)))})
+    add("kid-request-param-own", {"request": J("client_2", "RS256", "krq", kid=K(("rsa", 1)))})
+    add("kid-request-param-hs-own", {"request": J("client_1", "HS256", "krh", kid=K(("sym", s["client_1"])))})
+    add("kid-request-param-wrong", {"request": J("client_2", "ES256", "krw", kid=K(("rsa", 1)))})
     # request objects
     add("request-param-wrong-aud", {"request": J("client_2", "RS256", "rpa", aud=["https://elsewhere.example.org/"])})
     add("request-param-no-aud-hs", {"request": J("client_1", "HS256", "rph", aud=None)})
@@ -1092,6 +1319,15 @@ def configurations(ctx, rng, worlds):
     cfgs.append(("plain", {"ep": "introspection", "methods": ["private_key_jwt", "client_secret_jwt", "client_secret_post"], "issuer_target": False,
                            "clients": {"client_4": {"secret": ROTATED}}}, "half"))
     cfgs.append(("own_oct", {"ep": "pushed_authorization", "methods": list(FULL), "issuer_target": False, "clients": {}}, "matrix"))
+    # the key jar holds TWO symmetric keys for client_4 (its secret and one filed next to it, in both orders); the
+    # client database names one of them as the secret - only that one authenticates, by any secret-based method
+    for variant, epn, rot, mode in (("rot_jar", "token", True, "matrix"), ("rot_jar", "introspection", False, "matrix"),
+                                    ("rot_jar_new_first", "token_revocation", True, "matrix"),
+                                    ("rot_jar_new_first", "pushed_authorization", False, "matrix"),
+                                    ("rot_jar", "pushed_authorization", True, "half"), ("rot_jar_new_first", "token", False, "half"),
+                                    ("rot_jar", "userinfo", True, "half")):
+        cfgs.append((variant, {"ep": epn, "methods": list(FULL) + ["request_param"], "issuer_target": False,
+                               "clients": {"client_4": {"secret": ROTATED}} if rot else {}}, mode))
     # expiry settings and registrations, enumerated on the token endpoint
     for exp in (0, NOW0 - 1, NOW0 - 10 ** 6, NOW0, NOW0 + 1, NOW0 + 10 ** 6):
         cfgs.append(("plain", {"ep": "token", "methods": list(FULL), "issuer_target": False,
@@ -1105,7 +1341,7 @@ def configurations(ctx, rng, worlds):
     if ctx.quick:
         for i in range(40):
             epn = EPS[i % 5]
-            cfgs.append((rng.choice(["plain"] * 8 + ["two_oct", "own_oct"]),
+            cfgs.append((rng.choice(["plain"] * 6 + ["two_oct", "own_oct", "rot_jar", "rot_jar_new_first"]),
                          {"ep": epn, "methods": sample_methods(rng), "issuer_target": rng.random() < 0.3,
                           "clients": sample_clients_cfg(rng, epname[epn])}, "half" if i % 8 == 0 else "sampled"))
     else:
@@ -1114,7 +1350,7 @@ def configurations(ctx, rng, worlds):
             sub = [m for i, m in enumerate(METHS) if mask >> i & 1]
             for order in (sub, list(reversed(sub))):
                 epn = EPS[mask % 5]
-                cfgs.append((rng.choice(["plain"] * 8 + ["two_oct", "own_oct"]),
+                cfgs.append((rng.choice(["plain"] * 6 + ["two_oct", "own_oct", "rot_jar", "rot_jar_new_first"]),
                              {"ep": epn, "methods": order, "issuer_target": rng.random() < 0.3,
                               "clients": sample_clients_cfg(rng, epname[epn])}, "matrix" if mask % 16 == 0 else "sampled"))
     return cfgs
@@ -1200,21 +1436,335 @@ def run_history(ctx, world, cfg, mode, rng, clock, tag, cases):
     flush()
 
 
+
+# ------------------------------------------------------------------ the credential history of a client
+ROT = "client_r"
+ROT_METHODS = list(FULL) + ["request_param"]
+SECRET_LIFE = 2592000          # Registration's default client_secret_expires_in
+# one history = operations on the credentials of one client, each followed by the credential matrix at all five
+# endpoints.  ("reg", {...}) an accepted registration under the id (Registration.process_request(req, new_id=False);
+# "new": True = the first one with new_id=True, the id is the provider's choice); ("refused", how) a registration
+# under the id that the provider refuses; ("del",) the client is deleted; ("tick", s) the clock advances;
+# ("file", [keys]) / ("set-secret", s) what a deployer does by hand to a static client (keyjar.add_symmetric /
+# import_jwks append; the record gets another secret); ("publish", [keys]) the document at the client's jwks_uri is
+# replaced and the provider's copy is due for a refresh.
+HISTORIES = [
+    ("rereg-jwks", ROT, [("reg", {"jwks": [("rsa", 3), ("ec", 3)]}), ("reg", {"jwks": [("rsa", 4), ("ec", 4)]}),
+                         ("reg", {"jwks": [("rsa", 5)]})]),
+    ("rereg-secret-only", ROT, [("reg", {}), ("reg", {}), ("refused", "fragment"), ("reg", {})]),
+    ("rereg-new-id", None, [("reg", {"new": True, "jwks": [("rsa", 3)]}), ("reg", {"jwks": [("ec", 4)]}), ("refused", "sector"),
+                            ("reg", {"jwks": [("rsa", 3)]})]),
+    ("delete-reregister", ROT, [("reg", {"jwks": [("rsa", 3), ("ec", 3)]}), ("del",), ("reg", {"jwks": [("rsa", 4)]})]),
+    ("give-up-keys", ROT, [("reg", {"jwks": [("rsa", 3), ("ec", 3)]}), ("refused", "fragment"), ("reg", {})]),
+    ("expiry-renewal", ROT, [("reg", {"jwks": [("rsa", 3)]}), ("tick", SECRET_LIFE + 1), ("reg", {"jwks": [("rsa", 3)]}),
+                             ("tick", SECRET_LIFE), ("tick", 1)]),
+    ("by-hand", "client_4", [("file", [("oct", ROTATED)]), ("set-secret", ROTATED), ("file", [("rsa", 4)]),
+                             ("set-secret", None), ("del",)]),
+    ("jwks-uri", ROT, [("reg", {"jwks_uri": [("rsa", 3), ("ec", 3)]}), ("publish", [("rsa", 4), ("ec", 3)]), ("publish", [("ec", 4)]),
+                       ("reg", {"jwks": [("rsa", 5)]})]),
+]
+JWKS_URI = "https://client_r.example.com/jwks.json"
+
+
+class RotWorld(World):
+    """a provider on which the credentials of one client change over time.  The generator's ground truth: `gens`, the
+    material every accepted registration (deployer's act) brought - the last entry is what is in force, unless the
+    client was deleted; kj_iss[X] = the asymmetric keys in force (what the oracle calls registered)."""
+
+    def __init__(self, ctx, keys, x):
+        World.__init__(self, ctx, keys, "plain")
+        self.variant = "rotation"
+        self.x = x
+        self.gens = []
+        self.deleted = False
+        self.document = {"keys": []}
+        if x == "client_4":
+            self.gens.append({"secret": self.secret["client_4"], "keys": [("rsa", 2), ("ec", 2)]})
+
+        class Resp:
+            status_code = 200
+            headers = {"content-type": "application/json"}
+
+            def __init__(r, text):
+                r.text = text
+        self.httpc = lambda method, url, **kw: Resp(json.dumps(self.document))
+        self.server.keyjar.httpc = self.httpc
+
+    def current(self):
+        return None if self.deleted or not self.gens else self.gens[-1]
+
+    def configure(self, cfg):
+        World.configure(self, cfg)
+        if self.deleted and self.x in self.c.cdb:
+            del self.c.cdb[self.x]           # World.configure restores the static clients: this one was deleted
+
+    def _truth(self):
+        cur = self.current()
+        if cur is None:
+            self.kj_iss.pop(self.x, None)
+            self.secret.pop(self.x, None)
+        else:
+            self.kj_iss[self.x] = [("oct", cur["secret"])] + list(cur["keys"])
+            self.secret[self.x] = cur["secret"]
+
+    def snapshot(self):
+        c = self.c
+        return ({cid: copy.deepcopy(dict(rec)) for cid, rec in c.cdb.items()}, observe_keyjar(self))
+
+    def register(self, spec, refuse=None):
+        """a real registration (parse_request when the id is known to the provider, then process_request)
+        -> (accepted?, the registration in symbolic form)"""
+        from idpyoidc.message.oidc import RegistrationRequest
+        reg = self.server.get_endpoint("registration")
+        new = bool(spec.get("new"))
+        args = {"redirect_uris": ["https://client_r.example.com/cb"], "grant_types": ["authorization_code"],
+                "token_endpoint_auth_method": "private_key_jwt" if (spec.get("jwks") or spec.get("jwks_uri")) else "client_secret_basic"}
+        keys = list(spec.get("jwks") or spec.get("jwks_uri") or [])
+        if spec.get("jwks"):
+            args["jwks"] = {"keys": [pub_jwk(self.keys["%s%d" % k]) for k in keys]}
+        if spec.get("jwks_uri"):
+            self.document = {"keys": [pub_jwk(self.keys["%s%d" % k]) for k in keys]}
+            args["jwks_uri"] = JWKS_URI
+        if refuse == "fragment":
+            args["post_logout_redirect_uri"] = "https://client_r.example.com/logged-out#fragment"
+        elif refuse == "sector":
+            args["sector_identifier_uri"] = "https://client_r.example.com/sector.json"
+        if not new:
+            args["client_id"] = self.x
+        req = RegistrationRequest(**args)
+        if new or self.x in self.c.cdb:
+            from idpyoidc.server.exception import InvalidClient
+            try:
+                req = reg.parse_request(req.to_json())
+            except InvalidClient:
+                pass        # a client whose secret has expired cannot ask itself: the renewal is the deployer's call
+        resp = reg.process_request(req, new_id=new)
+        ok = isinstance(resp, dict) and "response_args" in resp
+        if ok:
+            ra = resp["response_args"]
+            if new:
+                self.x = ra["client_id"]
+            for kb in self.server.keyjar[self.x]:
+                kb.httpc = self.httpc
+            self.gens.append({"secret": ra["client_secret"], "keys": keys, "uri": bool(spec.get("jwks_uri"))})
+            self.deleted = False
+            self._truth()
+        return ok, keys
+
+    def apply(self, ctx, op, clock):
+        """performs one operation for real, keeps the ground truth, -> Coq cred_op term (None: not an operation of
+        the model - time passing, a remote document changing)"""
+        x = self.x
+        kind = op[0]
+        if kind == "reg":
+            ok, keys = self.register(op[1])
+            if not ok:
+                ctx.broken.append("history: the registration %r of %s was refused" % (op[1], x))
+                return None
+            return "(CReg %s)" % self.cq_registration(keys)
+        if kind == "refused":
+            ok, keys = self.register({"jwks": [("rsa", 5), ("ec", 5)]}, refuse=op[1])
+            if ok:
+                ctx.broken.append("history: the registration meant to be refused (%s) was accepted" % op[1])
+                return None
+            return "(CRefused %s)" % self.cq_registration(keys, refused=True)
+        if kind == "del":
+            del self.c.cdb[x]
+            self.deleted = True
+            self._truth()
+            return "(CDel %s)" % coq_str(x)
+        if kind == "tick":
+            clock.tick(op[1])
+            return None
+        if kind == "file":
+            for k in op[1]:
+                if k[0] == "oct":
+                    self.server.keyjar.add_symmetric(x, k[1])
+                else:
+                    self.server.keyjar.import_jwks({"keys": [pub_jwk(self.keys["%s%d" % k])]}, x)
+            cur = self.current()
+            # what the deployer files is registered from then on, next to what was (nothing is taken out)
+            self.gens.append({"secret": cur["secret"], "keys": list(cur["keys"]) + [k for k in op[1] if k[0] != "oct"]})
+            self._truth()
+            return "(CFile %s %s %s)" % (coq_str(x), coq_list([cq_vkey(k) for k in op[1]], "vkey"),
+                                         coq_list(["(%s, %s)" % (cq_vkey(k), coq_str(kid_for(self, k))) for k in op[1]], "(vkey * pystr)"))
+        if kind == "set-secret":
+            rec = copy.deepcopy(dict(self.c.cdb[x]))
+            rec["client_secret"] = op[1] if op[1] is not None else self.base_cdb[x]["client_secret"]
+            self.c.cdb[x] = rec
+            self.base_cdb[x] = copy.deepcopy(rec)          # configure() restores the static clients from here
+            cur = self.current()
+            self.gens.append({"secret": rec["client_secret"], "keys": list(cur["keys"])})
+            self._truth()
+            return "(CSet %s %s)" % (coq_str(x), cq_client(rec))
+        if kind == "publish":
+            self.document = {"keys": [pub_jwk(self.keys["%s%d" % k]) for k in op[1]]}
+            for kb in self.server.keyjar[x]:
+                if kb.source:
+                    kb.time_out = 0              # the provider's copy is due: the next look-up fetches the document
+            cur = self.current()
+            self.gens.append({"secret": cur["secret"], "keys": list(op[1]), "uri": True})
+            self._truth()
+            return None
+        raise ValueError(op)
+
+    def cq_registration(self, keys, refused=False):
+        rec = {} if refused else self.c.cdb[self.x]
+        mat = list(keys) + ([("oct", rec["client_secret"])] if rec.get("client_secret") else [])
+        return "{| rg_id := %s; rg_client := %s; rg_keys := %s; rg_kids := %s |}" % (
+            coq_str(self.x), cq_client(rec), coq_list([cq_vkey(k) for k in keys], "vkey"),
+            coq_list(["(%s, %s)" % (cq_vkey(k), coq_str(kid_for(self, k))) for k in mat], "(vkey * pystr)"))
+
+
+def cq_cdb(cdb):
+    return coq_list(["(%s, %s)" % (coq_str(cid), cq_client(r)) for cid, r in cdb.items()], "(pystr * client)")
+
+
+def rcase_term(world, before, op_term, after):
+    (cdb0, kj0), (cdb1, kj1) = before, after
+    a, b = cq_keyjar(world, kj0), cq_keyjar(world, kj1)
+    return share_literals("{| rc_cdb := %s; rc_kj := {| kj_iss := %s; kj_own := %s; kj_kid := %s |}; rc_op := %s; rc_cdb' := %s; "
+                          "rc_kj' := {| kj_iss := %s; kj_own := %s; kj_kid := %s |} |}" % ((cq_cdb(cdb0),) + a + (op_term, cq_cdb(cdb1)) + b))
+
+
+def rotation_matrix(world, cfg, now, tag):
+    """every credential that the material of ANY generation of the client makes - the one in force and every
+    superseded one - by every method, under the kid of the key, without kid, and under the kid of the key in
+    force; then the bystanders (client_1, client_2).  -> [(name, request)], names unique"""
+    x = world.x
+    gens = world.gens
+    cur = gens[-1] if gens else None
+    K = lambda key: kid_for(world, key)
+    F = []
+    seen = set()
+    for g, m in reversed(list(enumerate(gens))):      # newest first: material that is in force AND was before counts as in force
+        age = "in-force" if (m is cur and not world.deleted) else "superseded%d" % g
+
+        def J(alg, key, name, **o):
+            return good_jwt(world, cfg, x, alg, now, "r-%s-%s-%s" % (name, age, tag), key=key, **o)
+        sec = m["secret"]
+        if sec not in seen:
+            seen.add(sec)
+            sk = ("sym", sec)
+            F.append(("rot:%s:basic" % age, {"hdr": ("basic", "%s:%s" % (x, sec))}))
+            F.append(("rot:%s:post" % age, {"client_id": x, "client_secret": sec}))
+            F.append(("rot:%s:hs-kid" % age, {"assertion": J("HS256", sk, "hsk", kid=K(sk))}))
+            F.append(("rot:%s:hs-nokid" % age, {"assertion": J("HS256", sk, "hsn")}))
+            F.append(("rot:%s:request-param-hs-kid" % age, {"request": J("HS256", sk, "rph", kid=K(sk))}))
+            if cur is not None and cur["secret"] != sec:
+                ck = ("sym", cur["secret"])
+                F.append(("rot:%s:hs-kid-of-secret-in-force" % age, {"assertion": J("HS256", sk, "hskc", kid=K(ck))}))
+                F.append(("rot:in-force:hs-kid-of-%s" % age, {"assertion": good_jwt(world, cfg, x, "HS256", now, "r-hsck-%s-%s" % (age, tag),
+                                                                                      key=ck, kid=K(sk))}))
+        for k in m["keys"]:
+            if k in seen:
+                continue
+            seen.add(k)
+            alg = "RS256" if k[0] == "rsa" else "ES256"
+            nm = "%s%d" % k
+            F.append(("rot:%s:%s-kid" % (age, nm), {"assertion": J(alg, k, nm + "k", kid=K(k))}))
+            F.append(("rot:%s:%s-nokid" % (age, nm), {"assertion": J(alg, k, nm + "n")}))
+            F.append(("rot:%s:request-param-%s-kid" % (age, nm), {"request": J(alg, k, nm + "q", kid=K(k))}))
+            other = [c for c in (cur["keys"] if cur else []) if c[0] == k[0] and c != k]
+            if other:
+                F.append(("rot:%s:%s-kid-of-key-in-force" % (age, nm), {"assertion": J(alg, k, nm + "c", kid=K(other[0]))}))
+    s = world.secret
+    F.append(("rot:bystander:basic1", {"hdr": ("basic", "client_1:%s" % s["client_1"])}))
+    F.append(("rot:bystander:hs1-kid", {"assertion": good_jwt(world, cfg, "client_1", "HS256", now, "r-b1-" + tag,
+                                                               kid=K(("sym", s["client_1"])))}))
+    F.append(("rot:bystander:post2", {"client_id": "client_2", "client_secret": s["client_2"]}))
+    F.append(("rot:bystander:rs2-kid", {"assertion": good_jwt(world, cfg, "client_2", "RS256", now, "r-b2-" + tag, kid=K(("rsa", 1)))}))
+    if x != "client_4":
+        F.append(("rot:bystander:es4", {"assertion": good_jwt(world, cfg, "client_4", "ES256", now, "r-b4-" + tag)}))
+    return F
+
+
+def rotation_cfg(epn, hname, upto):
+    return {"ep": epn, "methods": list(ROT_METHODS), "issuer_target": False, "clients": {},
+            "rotation": {"history": hname, "upto": upto}}
+
+
+def credential_histories(ctx, keys, clock, cases, only=None):
+    """Deterministic (no rng).  For every history: every operation is performed for real on a provider of its own; the
+    model's cred_step is compared with what the real client database and key jar hold afterwards (chk_register); then
+    the credential matrix of ALL generations of the client's material goes through parse_request at the five
+    endpoints (model: chk_history on the observed state; oracle: accepted as X only with the material in force).
+    only = (history name, number of operations performed): stop there and return the world (replay)."""
+    rcases = []
+    for hname, x, ops in HISTORIES:
+        if only is not None and only[0] != hname:
+            continue
+        clock.now = NOW0
+        world = RotWorld(ctx, keys, x)
+        for i, op in enumerate(ops):
+            before = world.snapshot()
+            term = world.apply(ctx, op, clock)
+            after = world.snapshot()
+            ctx.count("history-op:" + op[0])
+            if term is not None:
+                rcases.append((rcase_term(world, before, term, after),
+                               {"history": hname, "op": i, "operation": op, "client": world.x,
+                                "key_jar_before": before[1][0].get(world.x), "key_jar_after": after[1][0].get(world.x),
+                                "secret_before": (before[0].get(world.x) or {}).get("client_secret"),
+                                "secret_after": (after[0].get(world.x) or {}).get("client_secret")}))
+            if only is not None:
+                if only[1] == i + 1:
+                    return world
+                continue
+            for epn in EPS:
+                cfg = rotation_cfg(epn, hname, i + 1)
+                world.configure(cfg)
+                hist = {"accepted_jti": set()}
+                now = clock.now
+                steps, recs = [], []
+                jdb0 = list(world.c.jti_db.keys())
+                for name, tmpl in rotation_matrix(world, cfg, now, "%s-%d-%s" % (hname, i, epn[:3])):
+                    rq = resolve_times(tmpl, now)
+                    t, rec, unmod = run_request(ctx, world, cfg, rq, now, hist, extra_rec={"entry": name})
+                    rec["name"] = name
+                    a = rec["auth"]
+                    verdict = "accepted" if (a and a[0] == "ok" and a[1] and a[1].get("client_id")) else "refused"
+                    ctx.count("rotation:%s:%s" % (name.split(":")[1].rstrip("0123456789"), verdict))
+                    ctx.count("kind:rotation")
+                    ctx.count("endpoint:" + epn)
+                    ctx.case_seen({"history": hname, "after": i + 1, "ep": epn, "name": name, "request": rq, "auth": a,
+                                   "outcome": rec["outcome"]}, True)
+                    if unmod:
+                        ctx.unmodelled += 1
+                        if steps:
+                            cases.append((history_term(ctx, world, cfg, jdb0, steps),
+                                          {"cfg": cfg, "variant": world.variant, "tag": hname, "steps": recs}))
+                        steps, recs, jdb0 = [], [], list(world.c.jti_db.keys())
+                    else:
+                        steps.append(t)
+                        recs.append({"i": len(recs), "name": name, "request": rq, "now": now, "auth": a, "outcome": rec["outcome"],
+                                     "handed_on": {k: v for k, v in rec["seen"].items() if k != "auth"}})
+                if steps:
+                    cases.append((history_term(ctx, world, cfg, jdb0, steps),
+                                  {"cfg": cfg, "variant": world.variant, "tag": hname, "steps": recs}))
+    if only is None:
+        ctx.coq_check_cases(["Lib.Base", "Lib.PyStr", "Model.ClientAuthn"], "rcase", "chk_register", rcases, shard=40,
+                            label="register")
+    return None
+
+
 def run(ctx):
     import logging
     import srv
+    import idpyoidc.server.oidc.registration  # noqa: loaded before the clock is installed (client_secret_expires_at)
     logging.disable(logging.CRITICAL)      # the provider logs every refusal; keep the check's output readable
     rng = ctx.rng
     keys = load_keys(ctx)
     clock = srv.Clock(NOW0).install()
     try:
-        worlds = {v: World(ctx, keys, v) for v in ("plain", "two_oct", "own_oct")}
+        worlds = {v: World(ctx, keys, v) for v in ("plain", "two_oct", "own_oct", "rot_jar", "rot_jar_new_first")}
         side_cases(ctx, worlds["plain"])
         cases = []
         known_witness(ctx, worlds["plain"], clock, cases)
         identity_processing(ctx, worlds["plain"], clock, cases)
         identity_client_credentials(ctx, keys, clock)
         long_lived_replays(ctx, worlds["plain"], clock, cases)
+        credential_histories(ctx, keys, clock, cases)
         cfgs = configurations(ctx, rng, worlds)
         for i, (variant, cfg, mode) in enumerate(cfgs):
             run_history(ctx, worlds[variant], cfg, mode, rng, clock, "h%d" % i, cases)
@@ -1635,6 +2185,30 @@ def replay(ctx, rp):
         clock = srv.Clock(case["now"]).install()
         try:
             cc_one(ctx, CCWorld(load_keys(ctx)), case.get("name", "replay"), untuple(case["request"]), case["now"])
+        finally:
+            clock.uninstall()
+            logging.disable(logging.NOTSET)
+        return
+    if isinstance(case, dict) and isinstance(case.get("cfg"), dict) and case["cfg"].get("rotation") and case.get("entry"):
+        # a request of a credential history: the history is performed again (the provider draws new secrets), the
+        # recorded entry of the credential matrix is made anew from the material of that history
+        import idpyoidc.server.oidc.registration  # noqa
+        logging.disable(logging.CRITICAL)
+        clock = srv.Clock(NOW0).install()
+        try:
+            cfg = case["cfg"]
+            world = credential_histories(ctx, load_keys(ctx), clock, [], only=(cfg["rotation"]["history"], cfg["rotation"]["upto"]))
+            world.configure(cfg)
+            now = clock.now
+            rq = resolve_times(dict(rotation_matrix(world, cfg, now, "replay"))[case["entry"]], now)
+            jdb0 = list(world.c.jti_db.keys())
+            term, rec, unmod = run_request(ctx, world, cfg, rq, now, {"accepted_jti": set()}, extra_rec={"entry": case["entry"]})
+            ctx.case_seen(rec, True)
+            if not unmod:
+                ctx.coq_check_cases(["Lib.Base", "Lib.PyStr", "Model.ClientAuthn"], "hcase", "chk_history",
+                                    [(history_term(ctx, world, cfg, jdb0, [term]),
+                                      {"cfg": cfg, "variant": world.variant, "tag": "replay", "steps": [rec]})],
+                                    label="replay", diag="diag_history")
         finally:
             clock.uninstall()
             logging.disable(logging.NOTSET)
